@@ -199,6 +199,18 @@ CLAIMED['C18'] = dict(
     technique='TLA+ state machine of the attribute merge + TLC; spec->code replay with the wrapped module applied directly as second oracle',
     design_ref='3/C18')
 
+CLAIMED['C12'] = dict(
+    text=('LayerIndex.tla decides the integer / set structure of the layers: 1-D convolution index maps (output length, which input position '
+          'feeds tap t of output o, zero / circular / reflect / causal / explicit padding, stride, kernel and input dilation), transposed '
+          'convolution as a fractionally strided correlation, pooling windows, and the partition of elements into statistic groups for '
+          'LayerNorm / RMSNorm / InstanceNorm / BatchNorm / GroupNorm; TLC checks the sanity laws on every configuration. The expected output '
+          'is computed from that relation with integer-valued inputs and parameters (exact) - N-D as products of 1-D maps, groups, masks, '
+          'ConvLocal - or finished in float64 for the norms (incl. running statistics, inference mode, masks, ill-conditioned inputs), and '
+          'compared with real nn.X and nnx.X with shared parameters; dropout case split, Dense / DenseGeneral / Einsum / Embed against their '
+          'stated contractions. Float rounding, rsqrt, promotion are outside the specification.'),
+    technique='TLA+ index-relation model + TLC enumeration; spec->code replay with exact integer tensors',
+    design_ref='3/C12')
+
 NOT_YET = 'check not built yet in this round (planned, see DESIGN.md section 3); not claimed until its specification is bound to the code'
 ALL = ['C%02d' % i for i in range(1, 21)]
 
